@@ -934,6 +934,53 @@ fn find_annotate_failures() {
     println!("NO-WITNESS find_annotate_failures");
 }
 
+/// bounded stand-in for the loader part of C19, files that include each other: loading must end (with a store or an error);
+/// a runaway recursion ends the test process (stack overflow), which the runner reports as the failing input
+#[test]
+fn find_include_cycle() {
+    let base = std::path::PathBuf::from(std::env::var("VX_SCRATCH").unwrap_or("/var/tmp".to_string())).join(format!("vx_include_cycle_{}", std::process::id()));
+    let store_json = |id: &str, include: &[&str], res: &str| format!(r#"{{ "@type": "AnnotationStore", "@id": "{}", "@include": [{}],
+        "resources": [{{ "@type": "TextResource", "@id": "{}", "text": "hello world" }}] }}"#, id, include.iter().map(|x| format!("\"{}\"", x)).collect::<Vec<_>>().join(", "), res);
+    // (name, files: (filename, includes), use a working directory)
+    let cases: Vec<(&str, Vec<(&str, Vec<&str>)>, bool)> = vec![
+        ("two stores including each other, loaded by path", vec![("a.store.stam.json", vec!["b.store.stam.json"]), ("b.store.stam.json", vec!["a.store.stam.json"])], false),
+        ("two stores including each other, loaded with a working directory", vec![("a.store.stam.json", vec!["b.store.stam.json"]), ("b.store.stam.json", vec!["a.store.stam.json"])], true),
+        ("a store including itself", vec![("a.store.stam.json", vec!["a.store.stam.json"])], false),
+        ("a cycle of three", vec![("a.store.stam.json", vec!["b.store.stam.json"]), ("b.store.stam.json", vec!["c.store.stam.json"]), ("c.store.stam.json", vec!["a.store.stam.json"])], false),
+        ("the same store included twice", vec![("a.store.stam.json", vec!["b.store.stam.json", "b.store.stam.json"]), ("b.store.stam.json", vec![])], false),
+    ];
+    for (k, (name, files, workdir)) in cases.iter().enumerate() {
+        let dir = base.join(format!("case{}", k));
+        let _ = std::fs::remove_dir_all(&dir);
+        std::fs::create_dir_all(&dir).unwrap();
+        for (i, (f, inc)) in files.iter().enumerate() { std::fs::write(dir.join(f), store_json(&format!("s{}", i), inc, &format!("res{}", i))).unwrap(); }
+        println!("(include case: {})", name);
+        let (tx, rx) = std::sync::mpsc::channel();
+        let d2 = dir.clone(); let wd = *workdir;
+        let handle = std::thread::Builder::new().stack_size(16 * 1024 * 1024).spawn(move || {
+            let r = std::panic::catch_unwind(|| {
+                if wd { AnnotationStore::from_file("a.store.stam.json", Config::default().with_workdir(d2.to_str().unwrap().to_string())) }
+                else { AnnotationStore::from_file(d2.join("a.store.stam.json").to_str().unwrap(), Config::default()) }
+            });
+            let _ = tx.send(match r { Err(_) => Err("panic".to_string()), Ok(Err(e)) => Ok(format!("error: {}", e)), Ok(Ok(s)) => Ok(format!("store with {} resources", s.resources_len())) });
+        }).unwrap();
+        let outcome = rx.recv_timeout(std::time::Duration::from_secs(60));
+        let problem = match &outcome {
+            Err(_) => Some("loading did not end within 60 s".to_string()),
+            Ok(Err(p)) => Some(p.clone()),
+            Ok(Ok(msg)) => if msg.contains("Too many open files") || msg.contains("os error 24") { Some(format!("recursed until the process ran out of file descriptors: {}", msg)) } else { None },
+        };
+        if outcome.is_ok() { let _ = handle.join(); }
+        if let Some(p) = problem {
+            println!("WITNESS {{\"clause\":\"include cycle\",\"case\":{:?},\"problem\":{:?}}}", name, p);
+            let _ = std::fs::remove_dir_all(&base);
+            return;
+        }
+    }
+    let _ = std::fs::remove_dir_all(&base);
+    println!("NO-WITNESS find_include_cycle");
+}
+
 /// bounded stand-in for the loader part of C19 (serde visitors and builders are outside the verifier's reach): 40 malformed or
 /// hostile STAM JSON documents (offsets beyond the text, inverted, wrongly aligned or huge cursors; unknown, self-referencing
 /// and wrongly typed ids; temporary ids of the wrong kind, duplicated, non-numeric, overflowing or leaving gaps; nested and empty
